@@ -1,6 +1,10 @@
 """C15 — joins: the one structural clause (R-SORTED: binary-search precondition)."""
 from vpr.facts import root_fn
 from vpr.prov import Slicer
+from vpr import hirq as H
+
+J = "varpulis_runtime::join::JoinBuffer::"
+PK = "(chrono::datetime::DateTime<chrono::offset::utc::Utc>, varpulis_runtime::event::Event)"
 
 EXPLANATION = (
     "R-SORTED on MIR: every partition_point / binary_search* call in the workspace is located; for the join buffer's "
@@ -9,11 +13,20 @@ EXPLANATION = (
     "own timestamp keeps the order only for in-order streams, which the property's quantifier does not assume. With an "
     "unsorted vector partition_point returns an arbitrary index and in-window events are expired (or expired ones kept)."
 )
-DECIDED = ["sortedness precondition of the only binary search on the join path"]
-NOT_DECIDED = ["correlation condition", "choice of the most recent event per source", "per-key cap eviction"]
+DECIDED = ["sortedness precondition of the only binary search on the join path",
+           "per-key buffers are arrival-ordered: appended at the back, evicted from the front only",
+           "the event chosen per source is the last in-window element of the arrival-ordered buffer",
+           "the window test of correlation and the expiry test of cleanup use the same cutoff and never expire what correlation accepts",
+           "the arriving event is stored, expired and correlated under one key and its own timestamp"]
+NOT_DECIDED = ["that every source is consulted", "upper bound of the window for out-of-order arrivals", "field merging of the joined event"]
 
 
 def run(ctx):
+    ctx.guard("correlate", lambda: run_correlate(ctx))
+    run_sorted(ctx)
+
+
+def run_sorted(ctx):
     F = ctx.facts()
     sites = [c for c in F.calls if c["callee"].endswith("::partition_point") or "::binary_search" in c["callee"]]
     ws = [c for c in sites if c["f"].startswith("varpulis_")]
@@ -57,3 +70,235 @@ def run(ctx):
         else:
             ctx.anchor_lost("sorted", "%s: no writer of the searched vector type `%s` found in %s" % (name, elem, mod))
         ctx.sample({"search_site": t["sp"], "element_type": elem, "appenders": [a[1] for a in appenders], "sorters": [s[1] for s in sorters]})
+
+
+# ----------------------------------------------------------------------------------------------------------------
+# correlation clauses (type-checked HIR of JoinBuffer)
+
+FRONT_ONLY = {"remove": "front", "drain": "front"}
+ORDER_BREAKING = {"pop": "removes the most recently arrived event", "truncate": "removes the most recently arrived events",
+                  "swap_remove": "moves the last element into the hole", "reverse": "reverses arrival order",
+                  "rotate_left": "rotates arrival order", "rotate_right": "rotates arrival order", "swap": "swaps two elements",
+                  "split_off": "removes the most recently arrived events", "dedup_by_key": "drops events", "dedup_by": "drops events"}
+
+
+def is_pk_mut(ty):
+    t = ty.replace("alloc::vec::", "").replace(", alloc::alloc::Global", "")
+    return t.startswith("&mut Vec<" + PK) or t.startswith("&mut [" + PK)
+
+
+def cutoff_role(h):
+    """locals bound to `<time> - self.window_duration`  ->  {binding key: show(time operand)}"""
+    out = {}
+    for s in H.lets(h["body"]):
+        if s["pat"]["k"] != "bind" or s.get("init") is None:
+            continue
+        i = H.strip(s["init"])
+        if i.get("k") == "bin" and i["op"] == "Sub":
+            r = H.strip(i["r"])
+            if r.get("k") == "field" and r["name"] == "window_duration":
+                out[H.bind_key(s["pat"])] = H.show(i["l"])
+    return out
+
+
+def ts_vs_cutoff(clo, cutoffs):
+    """normal form of the closure's test: ('>=' | '>' | '<' | '<='), read as  <tuple.0>  REL  cutoff ; None if not that shape"""
+    b = H.strip(clo["body"])
+    if b is None or b.get("k") != "bin" or b["op"] not in ("Ge", "Gt", "Le", "Lt"):
+        return None
+    first = clo["params"][0] if clo.get("params") else None
+    if not first or first["k"] != "tuple" or first["sub"][0]["k"] != "bind":
+        return None
+    ts = H.bind_key(first["sub"][0])
+    l, r = H.local_key(b["l"]), H.local_key(b["r"])
+    rel = {"Ge": ">=", "Gt": ">", "Le": "<=", "Lt": "<"}[b["op"]]
+    if l == ts and r in cutoffs:
+        return rel
+    if r == ts and l in cutoffs:
+        return {">=": "<=", ">": "<", "<=": ">=", "<": ">"}[rel]
+    return None
+
+
+def chain(e):
+    """method names from the receiver outwards: key_events.iter().rev().find(..) -> ['iter','rev','find']"""
+    out = []
+    e = H.strip(e)
+    while e is not None and e.get("k") == "mcall":
+        out.append(e["method"])
+        e = H.strip(e["recv"])
+    return list(reversed(out)), e
+
+
+def run_correlate(ctx):
+    R = "correlate"
+    # ---- 1. arrival order: every mutation of a per-key buffer in JoinBuffer keeps 'oldest arrival first'
+    F = ctx.facts()
+    muts = 0
+    fns = [p for p in F.hir_paths() if p.startswith(J)] if hasattr(F, "hir_paths") else []
+    if not fns:
+        fns = [J + n for n in ("add_event", "try_correlate", "cleanup_expired", "restore", "checkpoint", "stats", "new")]
+    for fn in fns:
+        h = F.hir(fn)
+        if h is None:
+            continue
+        short = fn.rsplit("::", 1)[1]
+        for x in H.walk(h["body"]):
+            if x.get("k") != "mcall" or not is_pk_mut(x.get("recv_ty", "")):
+                continue
+            m = x["method"]
+            key = "order:%s:%s" % (short, m)
+            if m in ORDER_BREAKING:
+                muts += 1
+                ctx.violation(R, key, "%s calls %s() on a per-key join buffer: %s, so the element found from the back is no longer the most recently arrived in-window event (or an in-window event is lost)" % (short, m, ORDER_BREAKING[m]), site=x["sp"])
+            elif m == "remove":
+                muts += 1
+                a = H.strip(x["args"][0])
+                if a.get("k") == "lit" and a["v"].get("v") == "0":
+                    ctx.ok(R, key, "evicts the oldest arrival (index 0)", site=x["sp"])
+                else:
+                    ctx.violation(R, key, "%s removes element `%s` of a per-key join buffer; the cap may only evict the oldest arrival (index 0)" % (short, H.show(a)), site=x["sp"])
+            elif m == "drain":
+                muts += 1
+                a = H.strip(x["args"][0])
+                fields = {f["n"]: f["e"] for f in a["fields"]} if a.get("k") == "struct" else None
+                front = fields is not None and ("start" not in fields or H.show(fields["start"]) == "0") and "end" in fields
+                if front:
+                    ctx.ok(R, key, "drains a prefix", site=x["sp"])
+                else:
+                    ctx.violation(R, key, "%s drains `%s` of a per-key join buffer; expiry may only remove a prefix (the oldest arrivals)" % (short, H.show(a)), site=x["sp"])
+            elif m == "push":
+                muts += 1
+                ctx.ok(R, key, "appends at the back", site=x["sp"])
+    ctx.floor(R, "mutations of per-key join buffers examined", muts, 3)
+
+    # ---- 2./3. selection in try_correlate and expiry in cleanup_expired
+    ht = ctx.need_hir(J + "try_correlate", rule=R)
+    hc = ctx.need_hir(J + "cleanup_expired", rule=R)
+    cut_t, cut_c = cutoff_role(ht), cutoff_role(hc)
+    if not cut_t or not cut_c:
+        ctx.anchor_lost(R, "no local bound to `<time> - self.window_duration` in try_correlate / cleanup_expired")
+        return
+    params_t = [H.bind_key(p) for p in ht["params"] if p["k"] == "bind"]
+    sel = []
+    for x in H.walk(ht["body"]):
+        if x.get("k") == "mcall" and x["args"] and H.strip(x["args"][0]).get("k") == "closure":
+            rel = ts_vs_cutoff(H.strip(x["args"][0]), cut_t)
+            if rel:
+                sel.append((x, rel))
+    if len(sel) != 1:
+        ctx.anchor_lost(R, "try_correlate: expected one iterator adaptor testing the stored timestamp against the cutoff, found %d" % len(sel))
+        return
+    x, rel = sel[0]
+    ms, root = chain(x)
+    # what follows the adaptor (filter(..).last() etc.): find the enclosing chain
+    outer = [y for y in H.walk(ht["body"]) if y.get("k") == "mcall" and x in [z for z in H.walk(y["recv"])]]
+    after = []
+    for y in sorted(outer, key=lambda y: len(chain(y)[0])):
+        after = chain(y)[0][len(ms):]
+    after = [m for m in after if m not in ("map", "cloned", "copied")]
+    revs = ms.count("rev") % 2
+    m = ms[-1]
+    newest = None
+    if m == "find":
+        newest = revs == 1
+    elif m == "rfind":
+        newest = revs == 0
+    elif m == "filter" and after[:1] in (["last"], ["next_back"]):
+        newest = revs == 0
+    elif m == "filter" and after[:1] == ["next"]:
+        newest = revs == 1
+    elif m in ("rposition",):
+        newest = revs == 0
+    elif m in ("position",):
+        newest = revs == 1
+    if not (ms and ms[0] in ("iter", "iter_mut")) or newest is None:
+        ctx.anchor_lost(R, "try_correlate: selection `%s` is not a recognised first/last-match form" % H.show(x)[:120])
+        return
+    if newest:
+        ctx.ok(R, "select:most-recent", ".".join(ms), site=x["sp"])
+    else:
+        ctx.violation(R, "select:most-recent", "try_correlate picks the FIRST in-window element of the arrival-ordered per-key buffer (`%s`), i.e. the oldest arrival; the joined output must carry the most recently arrived in-window event of each source" % ".".join(ms + after[:1]), site=x["sp"])
+    if rel in (">=", ">"):
+        ctx.ok(R, "select:window-side", "stored ts %s cutoff" % rel, site=x["sp"])
+    else:
+        ctx.violation(R, "select:window-side", "try_correlate accepts events whose timestamp is %s the cutoff (current - window): that selects the events OUTSIDE the window" % rel, site=x["sp"])
+    # the cutoff's time operand is the function's time parameter
+    tm = list(cut_t.values())[0]
+    if any(tm == p.split("#")[0] for p in params_t):
+        ctx.ok(R, "select:cutoff-from-arrival", tm)
+    else:
+        ctx.violation(R, "select:cutoff-from-arrival", "try_correlate's cutoff is computed from `%s`, not from the time handed in by add_event" % tm, site=ht["span"])
+    # cleanup: partition_point / retain / position closure against its cutoff
+    exp = []
+    for y in H.walk(hc["body"]):
+        if y.get("k") == "mcall" and y["args"] and H.strip(y["args"][0]).get("k") == "closure":
+            r2 = ts_vs_cutoff(H.strip(y["args"][0]), cut_c)
+            if r2:
+                exp.append((y, r2))
+    if len(exp) != 1:
+        ctx.anchor_lost(R, "cleanup_expired: expected one predicate testing the stored timestamp against the cutoff, found %d" % len(exp))
+        return
+    y, r2 = exp[0]
+    if y["method"] == "retain":
+        removed = {">=": "<", ">": "<=", "<": ">=", "<=": ">"}[r2]
+    elif y["method"] in ("partition_point", "position", "take_while"):
+        # partition_point(p): prefix where p holds is drained; position(p): prefix before the first p is drained
+        removed = r2 if y["method"] != "position" else {">=": "<", ">": "<=", "<": ">=", "<=": ">"}[r2]
+    else:
+        ctx.anchor_lost(R, "cleanup_expired: unrecognised expiry form `%s`" % y["method"])
+        return
+    accepted = rel
+    # removed must be disjoint from accepted: (< with >=), (< with >), (<= with >)
+    if removed in ("<", "<=") and accepted in (">=", ">") and not (removed == "<=" and accepted == ">="):
+        ctx.ok(R, "expiry:disjoint-from-window", "cleanup removes ts %s cutoff, correlation accepts ts %s cutoff" % (removed, accepted), site=y["sp"])
+    else:
+        ctx.violation(R, "expiry:disjoint-from-window", "cleanup_expired removes events with ts %s cutoff while try_correlate accepts ts %s cutoff: an event the window test accepts can be expired first, so whether a join fires depends on when garbage collection ran" % (removed, accepted), site=y["sp"])
+    ctx.sample({"selection": ".".join(ms + after[:1]), "accepts": "ts %s cutoff" % accepted, "cleanup_removes": "ts %s cutoff" % removed})
+
+    # ---- 4. add_event: one key, own timestamp
+    ha = ctx.need_hir(J + "add_event", rule=R)
+    ev = [H.bind_key(p) for p in ha["params"] if p["k"] == "bind"]
+    ev_param = ev[-1]  # (self, source_name, event)
+    def is_ev_ts(e):
+        e = H.strip(e)
+        return e is not None and e.get("k") == "field" and e["name"] == "timestamp" and H.local_key(e["e"]) == ev_param
+    calls = {m: [z for z in H.walk(ha["body"]) if z.get("k") == "mcall" and z["method"] == m] for m in ("try_correlate", "cleanup_expired", "entry", "push")}
+    tc = calls["try_correlate"]
+    en = [z for z in calls["entry"] if PK in z.get("recv_ty", "")]
+    pu = [z for z in calls["push"] if is_pk_mut(z.get("recv_ty", ""))]
+    if len(tc) != 1 or len(en) != 1 or len(pu) != 1:
+        ctx.anchor_lost(R, "add_event: expected one try_correlate call, one entry() on the per-key map and one push (found %d/%d/%d)" % (len(tc), len(en), len(pu)))
+        return
+    def keyloc(e):
+        e = H.strip(e)
+        while e is not None and e.get("k") == "mcall" and e["method"] in ("clone", "as_str", "to_string", "to_owned", "as_ref"):
+            e = H.strip(e["recv"])
+        return H.local_key(e)
+    k1, k2 = keyloc(en[0]["args"][0]), keyloc(tc[0]["args"][0])
+    if k1 is not None and k1 == k2:
+        ctx.ok(R, "add:one-key", k1.split("#")[0], site=tc[0]["sp"])
+    else:
+        ctx.violation(R, "add:one-key", "add_event stores the event under `%s` but correlates under `%s`" % (H.show(en[0]["args"][0]), H.show(tc[0]["args"][0])), site=tc[0]["sp"])
+    # the key local comes from to_partition_key of the event's own field
+    klet = [s for s in H.lets(ha["body"]) if s["pat"]["k"] == "bind" and H.bind_key(s["pat"]) == k1]
+    from_pk = klet and any(z.get("k") == "mcall" and z["method"] == "to_partition_key" for z in H.walk(klet[0]["init"])) and any(
+        z.get("k") == "mcall" and z["method"] == "get" and H.local_key(z["recv"]) == ev_param for z in H.walk(klet[0]["init"]))
+    if from_pk:
+        ctx.ok(R, "add:key-from-event", "to_partition_key of the arriving event's field")
+    else:
+        ctx.violation(R, "add:key-from-event", "the join key is not `to_partition_key()` of a field read from the arriving event", site=ha["span"])
+    if is_ev_ts(tc[0]["args"][1]):
+        ctx.ok(R, "add:correlate-at-own-time", site=tc[0]["sp"])
+    else:
+        ctx.violation(R, "add:correlate-at-own-time", "try_correlate is called with `%s` instead of the arriving event's timestamp" % H.show(tc[0]["args"][1]), site=tc[0]["sp"])
+    tup = H.strip(pu[0]["args"][0])
+    ok_t = tup.get("k") == "tuple" and is_ev_ts(tup["es"][0]) and any(H.local_key(z) == ev_param for z in H.walk(tup["es"][1]))
+    if ok_t:
+        ctx.ok(R, "add:stored-with-own-time", site=pu[0]["sp"])
+    else:
+        ctx.violation(R, "add:stored-with-own-time", "the buffered pair is `%s`: the stored timestamp must be the stored event's own" % H.show(tup), site=pu[0]["sp"])
+    # push and correlate are unconditional w.r.t. cleanup: push happens before try_correlate in source order
+    if int(pu[0]["sp"].split(":")[-2]) < int(tc[0]["sp"].split(":")[-2]):
+        ctx.ok(R, "add:store-before-correlate")
+    else:
+        ctx.violation(R, "add:store-before-correlate", "the arriving event is correlated before it is stored, so it can never be part of its own match", site=tc[0]["sp"])
